@@ -3,9 +3,45 @@
 #ifndef TETL_CMATH_FMIN_HPP
 #define TETL_CMATH_FMIN_HPP
 
+#include <etl/_config/all.hpp>
+
 #include <etl/_3rd_party/gcem/gcem.hpp>
+#include <etl/_concepts/same_as.hpp>
+#include <etl/_type_traits/is_constant_evaluated.hpp>
 
 namespace etl {
+
+namespace detail {
+
+inline constexpr struct fmin {
+    template <typename Float>
+    [[nodiscard]] constexpr auto operator()(Float x, Float y) const noexcept -> Float
+    {
+#if not defined(__AVR__)
+        if (not is_constant_evaluated()) {
+    #if __has_builtin(__builtin_fminf)
+            if constexpr (etl::same_as<Float, float>) {
+                return __builtin_fminf(x, y);
+            }
+    #endif
+    #if __has_builtin(__builtin_fmin)
+            if constexpr (etl::same_as<Float, double>) {
+                return __builtin_fmin(x, y);
+            }
+    #endif
+        }
+#endif
+        if (x != x) {
+            return y;
+        }
+        if (y != y) {
+            return x;
+        }
+        return y < x ? y : x;
+    }
+} fmin;
+
+} // namespace detail
 
 /// \ingroup cmath
 /// @{
@@ -15,20 +51,20 @@ namespace etl {
 /// chosen)
 ///
 /// https://en.cppreference.com/w/cpp/numeric/math/fmin
-[[nodiscard]] constexpr auto fmin(float x, float y) noexcept -> float { return etl::detail::gcem::min(x, y); }
+[[nodiscard]] constexpr auto fmin(float x, float y) noexcept -> float { return etl::detail::fmin(x, y); }
 
-[[nodiscard]] constexpr auto fminf(float x, float y) noexcept -> float { return etl::detail::gcem::min(x, y); }
+[[nodiscard]] constexpr auto fminf(float x, float y) noexcept -> float { return etl::detail::fmin(x, y); }
 
-[[nodiscard]] constexpr auto fmin(double x, double y) noexcept -> double { return etl::detail::gcem::min(x, y); }
+[[nodiscard]] constexpr auto fmin(double x, double y) noexcept -> double { return etl::detail::fmin(x, y); }
 
 [[nodiscard]] constexpr auto fmin(long double x, long double y) noexcept -> long double
 {
-    return etl::detail::gcem::min(x, y);
+    return etl::detail::fmin(x, y);
 }
 
 [[nodiscard]] constexpr auto fminl(long double x, long double y) noexcept -> long double
 {
-    return etl::detail::gcem::min(x, y);
+    return etl::detail::fmin(x, y);
 }
 
 /// @}
